@@ -17,10 +17,13 @@ enum Seg {
     MsgW(usize, Align),
     Ck,
     Ck2,
+    /// the custom key behind a placeholder with a width and an alignment / with truncation
+    CkW(usize, Align),
+    CkT(usize),
     Nl,
 }
 
-const TEMPLATES: [&[Seg]; 9] = [
+const TEMPLATES: [&[Seg]; 11] = [
     &[Seg::Prefix, Seg::Lit("|"), Seg::Msg],
     &[Seg::Lit("a\tb "), Seg::Msg, Seg::Lit("\t|"), Seg::Prefix],
     &[Seg::Lit("{\t"), Seg::Msg],
@@ -31,6 +34,9 @@ const TEMPLATES: [&[Seg]; 9] = [
     // every literal with a tab ends at a line break
     &[Seg::Lit("step\tone:"), Seg::Nl, Seg::Prefix, Seg::Lit("|"), Seg::Msg],
     &[Seg::Lit("a\tb"), Seg::Nl, Seg::Lit("\tc"), Seg::Nl, Seg::Msg, Seg::Lit("/"), Seg::Prefix],
+    // a custom key that writes a TAB, behind a placeholder that pads, aligns or truncates
+    &[Seg::CkW(12, Align::Right), Seg::Lit("|"), Seg::Msg],
+    &[Seg::Lit("t\t"), Seg::CkT(3), Seg::Lit("|"), Seg::CkW(14, Align::Center), Seg::Prefix],
 ];
 
 fn template_string(t: &[Seg]) -> String {
@@ -46,6 +52,8 @@ fn template_string(t: &[Seg]) -> String {
             Seg::MsgW(w, a) => s.push_str(&format!("{{msg:{}{}}}", a.flag(), w)),
             Seg::Ck => s.push_str("{ck}"),
             Seg::Ck2 => s.push_str("{ck2}"),
+            Seg::CkW(w, a) => s.push_str(&format!("{{ck:{}{}}}", a.flag(), w)),
+            Seg::CkT(w) => s.push_str(&format!("{{ck:{}!}}", w)),
             Seg::Nl => s.push('\n'),
         }
     }
@@ -64,6 +72,8 @@ fn expected_lines(t: &[Seg], msg: &str, prefix: &str, tw: usize) -> Vec<String> 
             Seg::MsgW(w, a) => s.push_str(&model::pad_first(&m, *w, *a, false)),
             Seg::Ck => s.push_str(&model::expand_tabs("x\ty", tw)),
             Seg::Ck2 => s.push_str(&model::expand_tabs("p\t\t\tq\t", tw)),
+            Seg::CkW(w, a) => s.push_str(&model::pad_first(&model::expand_tabs("x\ty", tw), *w, *a, false)),
+            Seg::CkT(w) => s.push_str(&model::pad_first(&model::expand_tabs("x\ty", tw), *w, Align::Left, true)),
             Seg::Nl => s.push('\n'),
         }
     }
@@ -255,7 +265,7 @@ fn run_tabs(c: &TabCase) -> CaseResult {
     let (mut msg, mut prefix, mut tw, mut tmpl) = (String::new(), String::new(), 8usize, c.style0);
     let mut v = Verdict::default();
     // (text has a tab, set at op index); a width change after that index makes the case non-trivial
-    let mut tab_text_at: Option<usize> = if TEMPLATES[c.style0 as usize % TEMPLATES.len()].iter().any(|s| matches!(s, Seg::Lit(l) if l.contains('\t')) || matches!(s, Seg::Ck | Seg::Ck2)) { Some(0) } else { None };
+    let mut tab_text_at: Option<usize> = if TEMPLATES[c.style0 as usize % TEMPLATES.len()].iter().any(|s| matches!(s, Seg::Lit(l) if l.contains('\t')) || matches!(s, Seg::Ck | Seg::Ck2 | Seg::CkW(..) | Seg::CkT(_))) { Some(0) } else { None };
     let mut changed_after = false;
     // the text of a stored ProgressFinish::WithMessage / AbandonWithMessage (default: AndClear, no text)
     let mut stored_finish: Option<String> = None;
@@ -497,7 +507,7 @@ pub fn property() -> Property {
         ],
         parts: vec![Box::new(Gen::<TabCase> {
             name: "history",
-            rule: "0-14 (thorough 30) ops from set_tab_width/with_tab_width (0..=16, occasionally up to 300), set_style/with_style/style().template() re-set over 9 templates (tabs in literals, tab literals ending at a line break, '{'+TAB, custom keys writing tabs in one and in several writes), set/with message/prefix with 0-5 tabs, finish_with_message/abandon_with_message/reset/tick/println (the bar lines it repaints), optional final drop with ProgressFinish::WithMessage; after every op: no TAB in any terminal write, painted lines == model with tabs -> current width, message()/prefix() == expanded; non-trivial = a width change after a text with a tab was set",
+            rule: "0-14 (thorough 30) ops from set_tab_width/with_tab_width (0..=16, occasionally up to 300), set_style/with_style/style().template() re-set over 11 templates (tabs in literals, a tab-writing custom key behind padding/aligning/truncating placeholders, tab literals ending at a line break, '{'+TAB, custom keys writing tabs in one and in several writes), set/with message/prefix with 0-5 tabs, finish_with_message/abandon_with_message/reset/tick/println (the bar lines it repaints), optional final drop with ProgressFinish::WithMessage; after every op: no TAB in any terminal write, painted lines == model with tabs -> current width, message()/prefix() == expanded; non-trivial = a width change after a text with a tab was set",
             strategy: case_strategy,
             cases: |t| t.pick(30_000, 1_200_000),
             run: run_tabs,
